@@ -17,3 +17,18 @@ package types
 //@ func StdSignBytes(chainID string, entropy int64, fee sdk.Coins, msg sdk.Msg, memo string) (bz []byte, err error)
 //@   props C03 C20
 //@   ensures err == nil ==> bz == sign_bytes(chainID, entropy, fee, msg, memo)
+
+// C03 (fee rule): the required fee of a message is its base fee times the multiplier of the FIRST table entry whose key is
+// the message's type, and times the default multiplier exactly when no entry has that key - every entry is consulted
+// (seed C03f: a `break` for `continue` stops at the first entry). The value-mode layer summarises this as msg_fee(msg).
+//@ func (fm FeeMultipliers) GetFee(msg sdk.Msg) (r sdk.Int)
+//@   props C03
+//@   mode heap
+//@   requires msg != nil
+// Int.Mul panics when the product leaves the 255-bit range (absurd multipliers): the path ends
+//@   may_panic
+//@   loop 1 frame
+//@   loop 1 invariant 0 - 1 <= #rangeindex && #rangeindex < len(fm.FeeMultis)
+//@   loop 1 invariant forall j int :: 0 <= j && j <= #rangeindex ==> fm.FeeMultis[j].Key != msg_type_s(msg)
+//@   ensures [first-match] forall i int :: 0 <= i && i < len(fm.FeeMultis) && fm.FeeMultis[i].Key == msg_type_s(msg) && (forall j int :: 0 <= j && j < i ==> fm.FeeMultis[j].Key != msg_type_s(msg)) ==> val(r) == msg_basefee_s(msg) * fm.FeeMultis[i].Multiplier
+//@   ensures [default] (forall i int :: 0 <= i && i < len(fm.FeeMultis) ==> fm.FeeMultis[i].Key != msg_type_s(msg)) ==> val(r) == msg_basefee_s(msg) * fm.Default
